@@ -89,3 +89,14 @@ V('c12-o-strict-refusal-after-change', 'C12', None, None, None, rule='C12-O', ed
   ('hl7apy/core.py', _STRICT_REFUSAL + "\n        # This will change", "        # This will change"),
   ('hl7apy/core.py', "            else:\n                raise OperationNotAllowed(\"Cannot change datatype: the Element already contains children\")\n        else:\n            self._datatype = datatype\n",
    "            else:\n                raise OperationNotAllowed(\"Cannot change datatype: the Element already contains children\")\n        else:\n            self._datatype = datatype\n" + _STRICT_REFUSAL)])
+
+# ---------------------------------------------------------------- C15-Z: a name is measured in the form in which it is compared (fixed by 561bb6c)
+V('c15-z-regression-raw-length', 'C15', 'hl7apy/core.py',
+  "    name = name.upper()  # the name is stored upper-cased, and upper-casing can change the length (e.g. 'ß')\n    return name.startswith('Z') and len(name) == 3",
+  "    return name.upper().startswith('Z') and len(name) == 3", rule='C15-Z')
+V('c15-z-raw-slice', 'C15', 'hl7apy/core.py',
+  "    name = name.upper()  # the name is stored upper-cased, and upper-casing can change the length (e.g. 'ß')\n    return name.startswith('Z') and len(name) == 3",
+  "    return name.upper().startswith('Z') and name[3:] == '' and name[2:] != ''", rule='C15-Z')
+V('twin-c15-z-other-local', 'C15', 'hl7apy/core.py',
+  "    name = name.upper()  # the name is stored upper-cased, and upper-casing can change the length (e.g. 'ß')\n    return name.startswith('Z') and len(name) == 3",
+  "    upper = name.upper()\n    return upper.startswith('Z') and len(upper) == 3", expect='clean')
